@@ -106,6 +106,11 @@ func (a *adversary) proofFor(r *run, h, target uint64, variant string) (proofD, 
 		p.pp.inst, p.p.inst = clusterInstance+1, clusterInstance+1
 	case "split": // the leader signs a proposal reference for another block than the one the PREPAREs are for
 		p.pp.hash = hashOfBody(a.newBody(r, h, false).body)
+	case "mixview": // PREPREPARE reference of a later view over the same block, PREPAREs of the earlier view
+		if pv+1 < target {
+			p.pp.v = pv + 1
+			p.ppBy = a.leaderOf(h, pv+1)
+		}
 	case "retyped": // COMMIT-typed signatures offered as PREPAREs
 		p.p.ht = protocol.LEAN_HELIX_COMMIT
 		p.pp.ht = protocol.LEAN_HELIX_COMMIT
@@ -113,7 +118,7 @@ func (a *adversary) proofFor(r *run, h, target uint64, variant string) (proofD, 
 	return p, b
 }
 
-var proofVariants = []string{"", "", "", "split", "split", "outsider", "dup", "future", "leaderprep", "few", "hashmix", "otherinst", "retyped"}
+var proofVariants = []string{"", "", "", "split", "split", "mixview", "outsider", "dup", "future", "leaderprep", "few", "hashmix", "otherinst", "retyped"}
 
 // craftFor builds one Byzantine message aimed at node n in its current state.
 func (a *adversary) craftFor(r *run, n *cnode) (*interfaces.ConsensusRawMessage, string) {
@@ -231,12 +236,18 @@ func (a *adversary) craftFor(r *run, n *cnode) (*interfaces.ConsensusRawMessage,
 		b := a.knownBlock(r, h)
 		rf := ref(protocol.LEAN_HELIX_PREPARE, h, v, b)
 		name := "p_other_instance"
-		switch r.rnd.Intn(3) {
+		switch r.rnd.Intn(4) {
 		case 0:
 			rf.inst = clusterInstance + 1
 		case 1:
 			rf.h = h + 1
 			name = "p_future_height"
+		case 2: // a COMMIT of a committee member for the next height, signed for another instance (valid share)
+			rf.ht = protocol.LEAN_HELIX_COMMIT
+			rf.h = h + 1
+			rf.v = 0
+			rf.inst = clusterInstance + 1
+			return a.mkC(rf, me, "", ""), "c_future_height_other_instance"
 		default:
 			rf.h = h + 1
 			rf.inst = clusterInstance + 1
